@@ -1670,3 +1670,149 @@ func nonNilSource(v ssa.Value) ssa.Value {
 	}
 	return src
 }
+
+// retCase is one way a function can return: the values returned and the branch conditions known on that way. A return
+// whose results are phis (typically the merge an inlined helper leaves behind: `err := h(); if err != nil { return err }`)
+// is split into one case per incoming edge, so that rules written as "for every return ..." see through the merge.
+type retCase struct {
+	ret   *ssa.Return
+	vals  []ssa.Value
+	conds []condEdge
+	pos   token.Pos
+}
+
+func retCases(fn *ssa.Function) []retCase {
+	var out []retCase
+	var expand func(rc retCase, depth int)
+	expand = func(rc retCase, depth int) {
+		var phi *ssa.Phi
+		if depth < 6 && len(out) < 128 {
+			for _, v := range rc.vals {
+				if p, ok := v.(*ssa.Phi); ok {
+					phi = p
+					break
+				}
+			}
+		}
+		if phi == nil {
+			out = append(out, rc)
+			return
+		}
+		for i, pred := range phi.Block().Preds {
+			nv := make([]ssa.Value, len(rc.vals))
+			for j, v := range rc.vals {
+				if p, ok := v.(*ssa.Phi); ok && p.Block() == phi.Block() {
+					nv[j] = p.Edges[i]
+				} else {
+					nv[j] = v
+				}
+			}
+			// an edge that contradicts what is known about the merged value at the return is not a way to get there
+			feasible := true
+			for _, ce := range rc.conds {
+				cm, ok := ce.asCmp()
+				if !ok || (cm.op != token.EQL && cm.op != token.NEQ) {
+					continue
+				}
+				for _, pr := range [][2]ssa.Value{{cm.x, cm.y}, {cm.y, cm.x}} {
+					p, isP := pr[0].(*ssa.Phi)
+					if !isP || p.Block() != phi.Block() || !isNilConst(pr[1]) {
+						continue
+					}
+					e := p.Edges[i]
+					if isNilConst(e) && cm.op == token.NEQ {
+						feasible = false
+					}
+					if cm.op == token.EQL && !isNilConst(e) {
+						if _, isPhi := e.(*ssa.Phi); !isPhi {
+							if _, isCall := e.(*ssa.Call); isCall || isSentinelError(e) {
+								// a freshly made error / sentinel is not nil
+								if isErrorType(e.Type()) && producesNonNilError(e) {
+									feasible = false
+								}
+							}
+						}
+					}
+				}
+			}
+			if !feasible {
+				continue
+			}
+			conds := append(append(append([]condEdge{}, dominatingConds(pred)...), edgeCond(pred, phi.Block())...), rc.conds...)
+			pos := rc.pos
+			if in, ok := nv[len(nv)-1].(ssa.Instruction); ok && in.Pos().IsValid() {
+				pos = in.Pos()
+			}
+			expand(retCase{ret: rc.ret, vals: nv, conds: conds, pos: pos}, depth+1)
+		}
+	}
+	for _, ret := range normalReturns(fn) {
+		expand(retCase{ret: ret, vals: append([]ssa.Value{}, ret.Results...), conds: dominatingConds(ret.Block()), pos: ret.Pos()}, 0)
+	}
+	return out
+}
+
+func isSentinelError(v ssa.Value) bool {
+	u, ok := v.(*ssa.UnOp)
+	if !ok || u.Op != token.MUL {
+		return false
+	}
+	g, ok := u.X.(*ssa.Global)
+	return ok && strings.HasPrefix(g.Name(), "Err")
+}
+
+// producesNonNilError: fmt.Errorf / errors.New results and Err* sentinels.
+func producesNonNilError(v ssa.Value) bool {
+	if isSentinelError(v) {
+		return true
+	}
+	if call, ok := v.(*ssa.Call); ok {
+		switch calleeName(call.Common()) {
+		case "fmt.Errorf", "errors.New":
+			return true
+		}
+	}
+	return false
+}
+
+// constStringDeep: a string that is constant after following single-assignment cells (locals captured by closures) and
+// constant concatenation, e.g. the "kamal-proxy."+method of a helper inlined with method = "Pause".
+func constStringDeep(v ssa.Value) (string, bool) {
+	for depth := 0; depth < 8; depth++ {
+		if s, ok := constString(v); ok {
+			return s, true
+		}
+		switch x := v.(type) {
+		case *ssa.BinOp:
+			if x.Op != token.ADD {
+				return "", false
+			}
+			a, ok1 := constStringDeep(x.X)
+			b, ok2 := constStringDeep(x.Y)
+			return a + b, ok1 && ok2
+		case *ssa.ChangeType:
+			v = x.X
+		case *ssa.Convert:
+			v = x.X
+		case *ssa.UnOp:
+			r := resolve(v)
+			if r == v {
+				return "", false
+			}
+			v = r
+		case *ssa.Phi:
+			val, ok := "", false
+			for i, e := range x.Edges {
+				s, isC := constStringDeep(e)
+				if !isC || (i > 0 && s != val) {
+					return "", false
+				}
+				val, ok = s, true
+			}
+			return val, ok
+		default:
+			return "", false
+		}
+	}
+	return "", false
+}
